@@ -61,13 +61,14 @@ PROPS = {
                  "cache with 2-3 simulated threads (cooperative tasks in the plain build, real threads under ASan) x 1-5 operations (7 in 20% of thorough runs) after a prefill of 0..capacity values, "
                  "15% single-thread histories of the shared and 15% of the thread-local variant (<=12 operations); scheduler policy "
                  "uniform / PCT(d<=3) / <=3 pre-emptions, spurious compare-exchange failures at 0/10/30%. Every load, store and "
-                 "compare-exchange of the cache is a yield point before and after the access. distinct = hash of the executed "
+                 "compare-exchange of the cache is a yield point before and after the access (before only, in half of the runs). The simulated atomics carry the memory orders "
+                 "the code specifies; a vector-clock happens-before model reports a payload access that those orders leave unordered against a conflicting access. distinct = hash of the executed "
                  "(thread, site) sequence combined with the recorded history; non-trivial = a concurrent run with at least one "
                  "pre-emption inside an operation, or a sequential run with >=2 operations"),
         "distinct_measure": "hash of the executed (thread,site) sequence + operation results",
         "real_vs_stub": {
             "real": ["include/SQuIDS/detail/Cache.h compiled unmodified from the working tree in both configurations", "std::thread/pthread threads"],
-            "simulated": ["std::atomic<list_head> and atomic_compare_exchange_weak (sequentially consistent shim with yield points, S4)",
+            "simulated": ["std::atomic<T>, atomic_flag, fences and every member/free-function spelling of their operations (S4: interleaving-level shim with yield points; the memory orders given by the code feed a vector-clock happens-before model over the payload)",
                           "the choice of which thread runs (S3 baton scheduler)"],
         },
         "assumptions": ["only sequentially consistent interleavings at atomic-operation granularity are explored (no weak-memory or compiler reordering)",
@@ -141,8 +142,10 @@ SOL_ASSUME = ["H0 is diagonal (documented precondition of the expectation-value 
               "term switches, stepper and tolerances change only between Evolve calls", "callbacks never throw", "closed-form comparison only when the predicted tolerance is <= 1e-3"]
 SOL_RULE = ("plans are generated from (VERIF_SEED, run index): nx 1-9, nsun 2-6, nrhos 1-3, nscalars 0-3, all 32 switch masks, grid linear/log/user; steppers rk2 rk4 rkf45 rkck rk8pd "
             "(adaptive and fixed), msadams (adaptive), simstep (6 tableaux x 4 buffer modes x dydt_in on/off); operations evolve(dt>=0), switch toggle, stepper change, move "
-            "construction, move assignment (into a fresh or a used solver; old object destroyed or re-initialised), re-initialisation to another configuration, expectation "
-            "queries (8 overloads, x inside / at nodes / below / above the grid), a second solver of another dimension on the thread, rejected calls. %s distinct = hash of "
+            "construction, move assignment (into a fresh or a used solver; old object destroyed, or re-initialised, written, read back and advanced), step-size limits, Set_AnyNumerics, "
+            "re-initialisation to another configuration or to the same layout at another initial time, an Evolve that ends in the stepper's hard error, expectation "
+            "queries (8 overloads, x inside / at nodes / below / above the grid / a few units in the last place outside), a second solver of another or the same dimension on the thread, "
+            "rejected calls (bad grids, ini() with an unsupported dimension followed by use of the grid, operators of another dimension handed to all six expectation overloads). %s distinct = hash of "
             "(configuration, switch masks, stepper and mode per segment, number of distinct input buffers the right-hand side saw, operation kinds); non-trivial = at least one "
             "numerical Evolve with >=2 right-hand-side evaluations on >=2 different input buffers, or a move")
 
